@@ -905,7 +905,7 @@ def m_c20(kf, fail, sc, evs):
     ev = next((e for e in evs if e.get("n") == fail["n"] and e["ev"] == "add"), None)
     if not ev or "pobs" not in ev:
         return False
-    syn = [d for d in ev["pobs"]["diags"] if d["tag"] == "syntax"]
+    syn = [d for d in ev["pobs"]["diags"] if d.get("synt", d["tag"] == "syntax")]
     exp = ev.get("expected", [])
     if len(syn) != len(exp):
         return False
